@@ -192,13 +192,35 @@ def run(tier):
         progs.append(p)
     out = common.Outcome(PID)
     extra = e3_extras.summary(e3_extras.safe(e3_extras.c10_transparent, out))
+    # `{:#?}` on shapes with fields does not finish under CBMC (PadAdapter). The same programs are run natively on sampled inputs instead:
+    # sampling, not a solver verdict - reported separately in the evidence
+    alt = []
+    aspecs = ["{:#?}", "{:#x?}", "{:#7?}", "{:+#.1?}"]
+    k = 0
+    for sh in SHAPES:
+        if sh == "raw-ident":
+            continue
+        pos = field_positions(sh)
+        configs = [((), None)] + [((p_,), None) for p_ in pos[:2]] + [((), p_) for p_ in pos[-1:]] + ([(tuple(pos[:1]), pos[-1])] if len(pos) >= 2 else [])
+        for ign, tr in configs:
+            for sp in (aspecs if tier == "thorough" else [aspecs[k % len(aspecs)], aspecs[0]]):
+                k += 1
+                p = build("a%05d" % len(alt), sh, ign, tr, sp, "derive" if k % 5 == 0 else "attr", False, False, "Debug")
+                if p.sig not in seen:
+                    seen.add(p.sig)
+                    alt.append(p)
+    runs = kani_runner.run_native(PID, alt, 400 if tier == "thorough" else 120, common.seed(), out)
+    extra.update({"native_sampling_programs": len(alt), "native_sampling_runs": runs,
+                  "native_sampling_rule": "alternate-flag specs %s on every shape x ignore / transparent placements: the same check functions run natively against the real macro on "
+                                          "pseudo-random payloads; sampling, not decided by the solver" % aspecs})
     return e1.finish(
         PID, tier, progs, t0, outcome=out, extra=extra,
         rule="one Kani harness per (shape, set of ignored fields, transparent field, concrete format spec); all field payloads and the variant selector are symbolic; the bytes "
              "written by the derive_ex Debug impl must equal those of a same-named std-derived twin with the ignored fields deleted (or of the transparent field alone); "
              "the field type echoes the formatter flags it receives; distinct by shape|ignored|transparent|spec|entry",
         bounds="shapes %s; <=3 fields; format specs %s (and {:#?} on field-less shapes only); sink 64 bytes (unwind 66)" % (sorted(SHAPES), SPECS),
-        outside="`{:#?}` / any option set with the alternate flag on shapes with fields: PadAdapter does not finish under CBMC (measured: 1-field struct undecided after 900 s); "
+        outside="`{:#?}` / any option set with the alternate flag on shapes with fields is not decided by the solver: PadAdapter does not finish under CBMC (measured: 1-field struct undecided "
+                "after 900 s) - those programs are only sampled natively (native_sampling_*); "
                 "width/precision values other than the listed ones; the rejection of two transparent fields is decided on the macro's MIR (E3 obligation build_debug_expr: Err <=> >=2 transparent among 0..3 fields)",
         functions=["Debug::fmt generated by derive_ex for each program"],
         harness_timeout="900s", batch=64)
